@@ -16,6 +16,7 @@ import (
 	lifecyclev2 "github.com/conduitio/conduit/pkg/lifecycle-poc"
 	"github.com/conduitio/conduit/pkg/pipeline"
 	"github.com/conduitio/conduit/pkg/processor"
+	"github.com/conduitio/conduit/pkg/provisioning"
 	"github.com/conduitio/conduit/pkg/verifkit"
 	"github.com/conduitio/conduit/pkg/verifkit/fakes"
 	"github.com/rs/zerolog"
@@ -99,6 +100,7 @@ type Stack struct {
 	LC         Lifecycle
 	V1         *lifecycle.Service
 	V2         *lifecyclev2.Service
+	Prov       *provisioning.Service
 }
 
 // DefaultRecovery is a finite, fast recovery configuration.
@@ -151,6 +153,12 @@ func New(w *verifkit.World, plugins *fakes.Plugins, db *verifkit.VDB, opt Option
 		s.V1 = lifecycle.NewService(logger, opt.Recovery, s.Connectors, s.Processors, plugins, s.Pipelines)
 		s.V1.OnFailure(func(e lifecycle.FailureEvent) { w.Log("lc", "failure", -1, errText(e.Error)) })
 		s.LC = s.V1
+	}
+	switch opt.Engine {
+	case V2:
+		s.Prov = provisioning.NewService(db, logger, s.Pipelines, s.Connectors, s.Processors, plugins, s.V2, "")
+	default:
+		s.Prov = provisioning.NewService(db, logger, s.Pipelines, s.Connectors, s.Processors, plugins, s.V1, "")
 	}
 	return s, nil
 }
